@@ -177,6 +177,10 @@ func zzRenderBlock(sb *strings.Builder, sts []*zzSt, ind int, lo zzLayout) {
 			sb.WriteString(pad + "end" + eol)
 		}
 	}
+	if lo.comments && ind > 0 {
+		// a comment-only line closes every nested block (also after break / return)
+		sb.WriteString(pad + "// block end\n")
+	}
 }
 
 type zzProg struct {
@@ -247,8 +251,8 @@ func (r *zzRef) lookup(name string) *float64 {
 	return nil
 }
 
-func (r *zzRef) push()  { r.scopes = append(r.scopes, map[string]*float64{}) }
-func (r *zzRef) pop()   { r.scopes = r.scopes[:len(r.scopes)-1] }
+func (r *zzRef) push()        { r.scopes = append(r.scopes, map[string]*float64{}) }
+func (r *zzRef) pop()         { r.scopes = r.scopes[:len(r.scopes)-1] }
 func (r *zzRef) out(s string) { r.trace = append(r.trace, "print:"+s+"\n") }
 
 func (r *zzRef) cond(c string) bool {
